@@ -213,4 +213,14 @@ def iterState (net : Net) : Nat → (Nat → Bool) → (Nat → Bool)
     let arr := (List.range net.sNodes.length).map a' |>.toArray
     iterState net k (fun j => arr.getD j false)
 
+/-- the acceptance flag of the driver's `eval2` (audit-2 finding 7): the labelling the evaluator `evalAll` returns is accepted by the
+specification's check `consistentB` at EVERY iterate `0 … k` of `iterState` (hypothesis of `C01.cycle_iter_iterState`) -/
+def iterAccepted (net : Net) : Nat → (Nat → Bool) → Bool
+  | 0, a => consistentB net false (!·) prim2 a (evalAll net false (!·) prim2 a)
+  | k + 1, a =>
+    consistentB net false (!·) prim2 a (evalAll net false (!·) prim2 a) &&
+    (let a' := nextState net a
+     let arr := (List.range net.sNodes.length).map a' |>.toArray
+     iterAccepted net k (fun j => arr.getD j false))
+
 end KV
